@@ -44,16 +44,7 @@ func ruleR13_1(r *Run) {
 			continue
 		}
 		for _, need := range matrix[op] {
-			is := func(in ssa.Instruction) bool {
-				c, ok := in.(ssa.CallInstruction)
-				if !ok {
-					return false
-				}
-				if callee := c.Common().StaticCallee(); callee != nil && callee.Name() == need {
-					return true
-				}
-				return c.Common().IsInvoke() && c.Common().Method.Name() == need
-			}
+			is := func(in ssa.Instruction) bool { return w.performs(in, []string{need}, 2) }
 			p := findPath(f, nil, is, func(in ssa.Instruction) bool {
 				ret, ok := in.(*ssa.Return)
 				return ok && !isErrorExit(ret)
